@@ -75,6 +75,21 @@ impl Layout {
         &self.start_to_hole
     }
 
+    #[cfg(feature = "verif")]
+    pub fn pending_holes(&self) -> &BTreeMap<usize, usize> {
+        &self.pending_holes
+    }
+
+    #[cfg(feature = "verif")]
+    pub fn start_to_reserved(&self) -> &BTreeMap<usize, usize> {
+        &self.start_to_reserved
+    }
+
+    #[cfg(feature = "verif")]
+    pub fn hole_to_starts(&self) -> &BTreeMap<usize, SmallVec<[usize; 1]>> {
+        &self.hole_to_starts
+    }
+
     pub fn len(&self) -> usize {
         let mut len = 0;
         if let Some((start, reserved)) = self.get_last_reserved() {
